@@ -828,7 +828,13 @@ func zexportOp(t []string) string {
 	snap := zsnap()
 	n0 := patch.ZZC13RegLen()
 	b := Create()
-	name := map[string]string{"known": "ztouch", "unknown": "zNoSuchFunction", "empty": ""}[t[1]]
+	name := map[string]string{"known": "ztouch", "unknown": "zNoSuchFunction", "empty": "", "suffix1": "ztouch", "suffix2": "ztouch"}[t[1]]
+	// suffix1/suffix2: the package path is cut to a '/'-aligned SUFFIX of the real one, so the full symbol name does not exist
+	pkgSuffix := map[string]string{"suffix1": "tencent/goom", "suffix2": "goom"}[t[1]]
+	structName, methodName := "ZRcv", name
+	if pkgSuffix != "" {
+		structName, methodName = "*ZRcv", "M1"
+	}
 	res := zrun(func() {
 		cb := zcallback(ztoks(t[3]), ztoks(t[4]), t[5] == "1")
 		if t[2] == "asapply" || t[2] == "asreturn" { // export func known asapply <asIns> <asOuts> 0 <cbIns> <cbOuts> | asreturn ... <vals>
@@ -840,6 +846,9 @@ func zexportOp(t []string) string {
 			}
 			return
 		}
+		if pkgSuffix != "" {
+			b.Pkg(pkgSuffix)
+		}
 		if t[0] == "func" {
 			m := b.ExportFunc(name)
 			if t[2] == "as" {
@@ -848,7 +857,7 @@ func zexportOp(t []string) string {
 				m.Apply(cb)
 			}
 		} else {
-			m := b.ExportStruct("ZRcv").Method(name)
+			m := b.ExportStruct(structName).Method(methodName)
 			if t[2] == "as" {
 				m.As(cb)
 			} else {
